@@ -166,7 +166,22 @@ pub fn execute(sc: &Scenario, env: &Env) -> (Outcome, RunStats) {
             }
             Step::WriteTool { .. } | Step::PatchAdd { .. } | Step::PatchUpdate { .. } | Step::PatchDelete { .. } | Step::PatchMulti { .. } => {
                 let (tool, args, can_change): (&str, Value, Vec<String>) = match step {
-                    Step::WriteTool { name, content, append, atomic } => ("write", json!({"path": NAMES[*name as usize], "content": content, "append": append, "atomic": atomic}), vec![NAMES[*name as usize].to_string()]),
+                    Step::WriteTool { name, content, append, atomic } => {
+                        // now and then the path carries white space around it: whatever file the
+                        // tool makes of that, the file it changes is the one to be covered (judged
+                        // from the tree, no expectation about the name)
+                        let n = NAMES[*name as usize];
+                        let (path, can) = match k % 10 {
+                            3 => (format!("{n} "), vec![]),
+                            6 => (format!(" {n}"), vec![]),
+                            8 => (format!("{n}\n"), vec![]),
+                            _ => (n.to_string(), vec![n.to_string()]),
+                        };
+                        if can.is_empty() {
+                            stats.bump("write_paths_with_surrounding_white_space", 1);
+                        }
+                        ("write", json!({"path": path, "content": content, "append": append, "atomic": atomic}), can)
+                    }
                     Step::PatchAdd { name } => ("apply_patch", json!({"patch": format!("*** Begin Patch\n*** Add File: {}\n+added at {k}\n*** End Patch\n", NAMES[*name as usize])}), vec![NAMES[*name as usize].to_string()]),
                     Step::PatchUpdate { name, move_to } => {
                         let p = NAMES[*name as usize];
@@ -424,7 +439,7 @@ impl Check for C14 {
         out.into_iter().map(|s| serde_json::to_value(s).unwrap()).collect()
     }
     fn rule(&self) -> String {
-        "one evaluation = one history of 3-30 steps over six paths (existing, missing, nested): manual checkpoints over 1-4 paths spelled relative or absolute, write tool (overwrite/append, atomic or in place), apply_patch tool (add, update, update+move, delete, two-file; now and then with a blank-line / space padded envelope), direct edits, deletes, a directory put in a path's place, rewinds to any earlier checkpoint (manual or automatic, repeatedly), and rewinds with an injected failure (stored blob removed, covered path occupied by a directory); process cwd equal to or different from the root (where the same relative names hold other bytes); after each rewind every covered path is compared with its checkpoint-time bytes/absence, after each editing tool the automatic checkpoint's position and coverage are judged, after a failed rewind the tree must be unchanged; distinct = hash of (step kinds, outcomes) and cwd mode; non-trivial = at least one successful rewind judged".into()
+        "one evaluation = one history of 3-30 steps over six paths (existing, missing, nested): manual checkpoints over 1-4 paths spelled relative or absolute, write tool (overwrite/append, atomic or in place; now and then with white space around the path), apply_patch tool (add, update, update+move, delete, two-file; now and then with a blank-line / space padded envelope), direct edits, deletes, a directory put in a path's place, rewinds to any earlier checkpoint (manual or automatic, repeatedly), and rewinds with an injected failure (stored blob removed, covered path occupied by a directory); process cwd equal to or different from the root (where the same relative names hold other bytes); after each rewind every covered path is compared with its checkpoint-time bytes/absence, after each editing tool the automatic checkpoint's position and coverage are judged, after a failed rewind the tree must be unchanged; distinct = hash of (step kinds, outcomes) and cwd mode; non-trivial = at least one successful rewind judged".into()
     }
     fn assumptions(&self) -> Vec<String> {
         vec![
